@@ -316,4 +316,34 @@ def altMatch (D : Dev) (fl : Flavour) (fp t : JV) : Bool :=
   | .simple => matchF D (fp.depth + 1) fp t
   | .gen => if genGate D fp t then matchF D (fp.depth + 1) fp t else false
 
+/-! ## the inputs on which a deviation can show (named exclusions of the partial theorems) -/
+
+/-- no index before the last fragment -/
+def innerIdxFree : Path → Bool
+  | [] => true
+  | [_] => true
+  | f :: g :: r => (match f with | .idx _ => false | _ => true) && innerIdxFree (g :: r)
+
+/-- the last fragment is not an index -/
+def finalIdxFree : Path → Bool
+  | [] => true
+  | [f] => (match f with | .idx _ => false | _ => true)
+  | _ :: g :: r => finalIdxFree (g :: r)
+
+/-- no ignore path has an index before its last fragment (the predicate that excludes
+C19-multi-index-ignore) -/
+def NoInnerIdx (ign : List Path) : Prop := ∀ g, g ∈ ign → innerIdxFree g = true
+
+/-- no ignore path ends in an index (the predicate that excludes C19-ignored-length-index) -/
+def NoFinalIdx (ign : List Path) : Prop := ∀ g, g ∈ ign → finalIdxFree g = true
+
+/-- an integer that `float64` holds exactly -/
+def IsFloatExact (i : Int) : Prop := i.natAbs < 2 ^ 53
+
+/-- the roots are an integer and a float, in either order (the pairs that C19-gen-root-number is about) -/
+def numKindMix : JV → JV → Bool
+  | .int _, .flt _ => true
+  | .flt _, .int _ => true
+  | _, _ => false
+
 end OjgVerif.Diff
